@@ -6,7 +6,7 @@
     src/library/log/formatting/format.cpp    (Format::format / formatDateTime / append)
     src/library/log/detail/log_msg.cpp       (LogMsg constructor: directory part of the file name removed)
     src/library/log/detail/log_attributes_container.cpp, src/library/log/log_attributes.cpp
-    src/library/log/detail/log_scoped_attribute.cpp, Logging::add/get/removeAttribute
+    src/library/log/detail/log_scoped_attribute.cpp, Logging::add/get/removeAttribute/removeAttributeEntry
     src/library/log/detail/stream_log.cpp    (StreamLog::addAttribute: the same lookup)
 
   Texts are byte lists (`std::string`; `setw` counts bytes).  `strftime` is a parameter:
@@ -257,7 +257,31 @@ def formatField (e : Env) (m : Msg) (s : OStream) (f : Field) : OStream :=
 def format (e : Env) (m : Msg) (s : OStream) (fields : List Field) : OStream :=
   fields.foldl (formatField e m) s
 
-/-! ### Attribute scopes (log_scoped_attribute.cpp) -/
+/-! ### The global attributes and attribute scopes (logging.cpp, log_scoped_attribute.cpp)
+
+  Model of the repaired code (/repo fix "scoped log attribute removes its own entry"): every entry of a
+  `LogAttributesContainer` carries the id `addAttribute` returned for it (`mNextId++`); a `ScopedAttribute`
+  remembers the id of its entry and its destructor calls `removeAttributeEntry( id)`.  Before the fix the
+  destructor called `removeAttribute( name)` = "erase the newest entry of that name", which after a permanent
+  `addAttribute`/`removeAttribute` of the same name inside the scope was somebody else's entry. -/
+
+/-- one entry of `Logging::mAttributes`: the id given by `addAttribute`, name, value -/
+structure GEntry where
+  id : Nat
+  name : Text
+  value : Text
+  deriving DecidableEq, Repr
+
+/-- what a lookup sees of the global container: (name, value) in insertion order -/
+def viewOf (g : List GEntry) : Attrs := g.map (fun e => (e.name, e.value))
+
+/-- `removeAttribute( name)` on the global container: erases the entry with the greatest index that has
+    this name -/
+def removeName (g : List GEntry) (n : Text) : List GEntry :=
+  (g.reverse.eraseP (fun e => e.name = n)).reverse
+
+/-- `removeAttributeEntry( id)`: erases the first entry with this id, nothing if there is none -/
+def removeId (g : List GEntry) (k : Nat) : List GEntry := g.eraseP (fun e => e.id = k)
 
 /-- what happens to the global attribute container -/
 inductive Ev where
@@ -265,23 +289,34 @@ inductive Ev where
   | pop                   -- the most recently constructed one still alive is destroyed
   | global (n v : Text)   -- `Logging::addAttribute` (stays)
   | remove (n : Text)     -- `Logging::removeAttribute`
+  | drop (i : Nat)        -- the live `ScopedAttribute` number `i` (0 = newest) is destroyed: objects on the
+                          -- heap / in other threads need not die in reverse order of construction
   deriving DecidableEq, Repr
 
-/-- global attributes and the names of the live `ScopedAttribute` objects (newest first) -/
+/-- the global container (`ents`, `next` = `mNextId`) and the ids held by the live `ScopedAttribute`
+    objects (newest first) -/
 structure Scopes where
-  glob : Attrs := []
-  live : List Text := []
+  ents : List GEntry := []
+  next : Nat := 0
+  live : List Nat := []
   deriving DecidableEq, Repr
 
-/-- `none`: a `pop` without a live scope (not a program) -/
+/-- the global attributes as a lookup sees them -/
+def Scopes.glob (s : Scopes) : Attrs := viewOf s.ents
+
+/-- `none`: a `pop`/`drop` without such a live scope (not a program) -/
 def Scopes.step (s : Scopes) : Ev → Option Scopes
-  | .push n v => some { glob := s.glob.add n v, live := n :: s.live }
+  | .push n v => some { ents := s.ents ++ [⟨s.next, n, v⟩], next := s.next + 1, live := s.next :: s.live }
   | .pop =>
     match s.live with
     | [] => none
-    | n :: rest => some { glob := s.glob.remove n, live := rest }
-  | .global n v => some { s with glob := s.glob.add n v }
-  | .remove n => some { s with glob := s.glob.remove n }
+    | k :: rest => some { s with ents := removeId s.ents k, live := rest }
+  | .global n v => some { s with ents := s.ents ++ [⟨s.next, n, v⟩], next := s.next + 1 }
+  | .remove n => some { s with ents := removeName s.ents n }
+  | .drop i =>
+    match s.live[i]? with
+    | none => none
+    | some k => some { s with ents := removeId s.ents k, live := s.live.eraseIdx i }
 
 def Scopes.run (s : Scopes) : List Ev → Option Scopes
   | [] => some s
